@@ -30,32 +30,32 @@ Theorem C17_isort_sorted_perm :
 Proof. intros A cmp W l. split; [apply sorted_sortedb, isort_sorted; exact W|apply isort_perm]. Qed.
 Print Assumptions C17_isort_sorted_perm.
 
-(* ---- SortServicesByCreationTime *)
+(* ---- SortServicesByCreationTime (after fix 2ebf73e) *)
 
-(* FULL STATEMENT IS FALSE (candidate K6, confirmed): the comparator ties on (creation time,
-   Attributes.Name, namespace); two ServiceEntry-shaped services of one namespace naming one host with
-   equal creation times are kept in input (= krt List() = map) order, and the winner of
-   HostnameAndNamespace changes with it. *)
-Theorem C17_not_total_refuted :
-  exists l l', Permutation l l' /\ Forall se_shaped l /\ NoDup (map s_obj l) /\
-    sort_services l <> sort_services l' /\
-    winner l ("dup.example.com", "ns1") <> winner l' ("dup.example.com", "ns1").
-Proof. exact services_not_total. Qed.
-Print Assumptions C17_not_total_refuted.
-
-(* what does hold: order independence under uniqueness of (creation time, name, namespace) *)
-Theorem C17_services_order_partial :
+(* order independence under exactly the uniqueness the comparator needs: two distinct service objects
+   differ in (creation time, Attributes.Name, namespace, ObjectName, hostname).  The consequence for
+   initServiceRegistry: the same winners of HostnameAndNamespace. *)
+Theorem C17_services_order :
   forall l l', Permutation l l' -> svc_key_unique l ->
     sort_services l = sort_services l' /\ host_index l = host_index l'.
 Proof. intros l l' P U. split; [apply services_order|apply host_index_order]; assumption. Qed.
-Print Assumptions C17_services_order_partial.
+Print Assumptions C17_services_order.
 
 (* the comparator is a weak order whose Eq is exactly equality of that key *)
 Theorem C17_services_cmp_key :
   weak_order svc_cmp /\
-  forall x y, svc_cmp x y = Eq <-> s_time x = s_time y /\ s_name x = s_name y /\ s_ns x = s_ns y.
+  forall x y, svc_cmp x y = Eq <->
+    s_time x = s_time y /\ s_name x = s_name y /\ s_ns x = s_ns y /\ s_obj x = s_obj y /\ s_host x = s_host y.
 Proof. split; [exact wo_svc|exact svc_cmp_eq]. Qed.
 Print Assumptions C17_services_cmp_key.
+
+(* the witness of the former finding C17-K6-svc-tie (two ServiceEntries of ns1 naming dup.example.com in the
+   same second) is now ordered by ObjectName, whatever the listing order *)
+Theorem C17_services_former_k6_witness :
+  sort_services [k6_a; k6_b] = sort_services [k6_b; k6_a] /\
+  winner [k6_a; k6_b] ("dup.example.com", "ns1") = winner [k6_b; k6_a] ("dup.example.com", "ns1").
+Proof. exact k6_now_ordered. Qed.
+Print Assumptions C17_services_former_k6_witness.
 
 (* the ServiceEntry registry's own sorter adds ObjectName to the key *)
 Theorem C17_se_services_order :
@@ -107,29 +107,15 @@ Theorem C17_pick_first_order : forall l l', Permutation l l' -> pick_first l = p
 Proof. exact pick_first_order. Qed.
 Print Assumptions C17_pick_first_order.
 
-(* FULL STATEMENT IS FALSE: pickBestVisibleNamespace keeps the first of several oldest visible
-   non-Kubernetes services in map iteration order *)
-Theorem C17_pick_best_refuted :
-  exists l l', Permutation l l' /\ NoDup (map n_ns l) /\
-    Forall (fun s => n_visible s = true /\ n_kube s = false) l /\
-    pick_best l <> pick_best l'.
-Proof. exact pick_best_not_total. Qed.
-Print Assumptions C17_pick_best_refuted.
+(* pickBestVisibleNamespace (after fix 2ebf73e: creation-time ties broken by namespace) does not depend on
+   the iteration order of the byNamespace map; the only hypothesis is structural: at most one visible
+   Kubernetes service per hostname (a Kubernetes hostname contains its namespace) *)
+Theorem C17_pick_best_order :
+  forall l l', Permutation l l' -> one_kube l -> pick_best l = pick_best l'.
+Proof. exact pick_best_order. Qed.
+Print Assumptions C17_pick_best_order.
 
-Theorem C17_pick_best_partial :
-  forall l l', Permutation l l' -> visible_nonkube l -> times_distinct l -> pick_best l = pick_best l'.
-Proof. exact pick_best_order_nokube. Qed.
-Print Assumptions C17_pick_best_partial.
-
-(* a hostname can be owned by at most one Kubernetes service: when it is visible it wins, in any order *)
-Theorem C17_pick_best_kube_order :
-  forall l l' k, Permutation l l' -> In k l -> n_visible k = true -> n_kube k = true ->
-    (forall x, In x l -> n_visible x = true -> n_kube x = true -> x = k) ->
-    pick_best l = pick_best l'.
-Proof. exact pick_best_order_kube. Qed.
-Print Assumptions C17_pick_best_kube_order.
-
-(* ---- virtual hosts of the HTTP-proxy route (candidate K10) *)
+(* ---- virtual hosts of the HTTP-proxy route (candidate K10; the port order feeding it was fixed in 21ee1c8) *)
 
 (* mergeAllVirtualHosts alone follows map iteration order ... *)
 Theorem C17_merge_vhosts_order_dependent :
@@ -153,11 +139,11 @@ Proof.
 Qed.
 
 Example C17_ex_pick_best :
-  let l := [MkNsvc "ns1" true false 7; MkNsvc "ns2" true false 9] in
-  visible_nonkube l /\ times_distinct l /\ pick_best l = "ns1" /\ pick_best (rev l) = "ns1".
+  let l := [MkNsvc "ns2" true false 7; MkNsvc "ns1" true false 7; MkNsvc "ns3" false true 1] in
+  one_kube l /\ pick_best l = "ns1" /\ pick_best (rev l) = "ns1".
 Proof.
-  cbn. split; [repeat constructor|]. split; [|split; reflexivity].
-  intros x y [<-|[<-|[]]] [<-|[<-|[]]]; cbn; intros; try reflexivity; discriminate.
+  cbn. split; [|split; reflexivity].
+  intros x y [<-|[<-|[<-|[]]]] [<-|[<-|[<-|[]]]]; cbn; intros; try reflexivity; discriminate.
 Qed.
 
 Example C17_ex_vhosts :
